@@ -90,7 +90,6 @@ package parser
 //@   requires len(v.BinModel.Packets) == 0
 //@   ensures typeis(result, *model.BinaryModel)
 //@   ensures [C12:D6-model] len(unbox(result, *model.BinaryModel).SyntaxErrors) == 0 ==> forall(p, 0, len(unbox(result, *model.BinaryModel).Packets), forall(i, 0, len(unbox(result, *model.BinaryModel).Packets[p].Fields), model.resolved(unbox(result, *model.BinaryModel), unbox(result, *model.BinaryModel).Packets[p].Fields[i])))
-//@   ensures [C12:D6-model-inline] len(unbox(result, *model.BinaryModel).SyntaxErrors) == 0 ==> forall(p, 0, len(unbox(result, *model.BinaryModel).Packets), forall(i, 0, len(unbox(result, *model.BinaryModel).Packets[p].Fields), model.inlineResolved(unbox(result, *model.BinaryModel), unbox(result, *model.BinaryModel).Packets[p].Fields[i])))
 //@   loop 0 invariant model.metaWF(v.BinModel)
 //@   loop 1 invariant model.metaWF(v.BinModel)
 //@   loop 4 invariant model.packetsNonNil(v.BinModel)
@@ -210,7 +209,6 @@ package parser
 //@ func ParseFile
 //@   ensures result1 == nil ==> typeis(result0, *model.BinaryModel) && allocated(unbox(result0, *model.BinaryModel).PacketsMap)
 //@   ensures [C12:D6-parsefile] result1 == nil && len(unbox(result0, *model.BinaryModel).SyntaxErrors) == 0 ==> forall(p, 0, len(unbox(result0, *model.BinaryModel).Packets), forall(i, 0, len(unbox(result0, *model.BinaryModel).Packets[p].Fields), model.resolved(unbox(result0, *model.BinaryModel), unbox(result0, *model.BinaryModel).Packets[p].Fields[i])))
-//@   ensures [C12:D6-parsefile-inline] result1 == nil && len(unbox(result0, *model.BinaryModel).SyntaxErrors) == 0 ==> forall(p, 0, len(unbox(result0, *model.BinaryModel).Packets), forall(i, 0, len(unbox(result0, *model.BinaryModel).Packets[p].Fields), model.inlineResolved(unbox(result0, *model.BinaryModel), unbox(result0, *model.BinaryModel).Packets[p].Fields[i])))
 
 //@ methods (*SyntaxErrorListener)
 //@   requires self != nil
